@@ -123,7 +123,8 @@ class C07(core.Prop):
             target = rng.choice(devices)
             vecs = drvgen.all_vectors(target["defn"])
             name = rng.choice([None, None, rng.choice(sorted(vecs)), "NOPE", ""])
-            dev = rng.choice([target["defn"]["name"], target["defn"]["name"], None, "UNKNOWN"])
+            tn = target["defn"]["name"]
+            dev = rng.choice([tn, tn, tn, None, "UNKNOWN", tn[:-1], tn[1:], "", tn + "X", tn.lower()])
             cases.append({"devices": devices, "request": {"device": dev, "name": name}})
         return cases
 
